@@ -34,6 +34,7 @@ def run(ck):
     ck.rule("C14.R5", "each JSON record reaches the writer whole: one write_all of the complete buffer, into a buffer cleared first (as C13.R1/R2)", floor=10)
     ck.rule("C14.R4", "a later record updates the span's stored fields under one write lock (read-merge-store is atomic); fields are stored once, merged when present", floor=3)
     ck.rule("C14.R9", "numbers the JSON visitors do not handle themselves (128-bit) reach record_debug with every digit: Visit's provided methods pass the value on unchanged (as C10.R4)", floor=8)
+    ck.rule("C14.R10", "a value is rendered the same way whether it is an event field or a span field: the event-side visitors (tracing-serde) override no record_* method that the span-side JsonVisitor leaves to Visit's provided default", floor=2)
     ck.rule("C14.R8", "every span field the JSON visitor is handed is stored (as C13.R10)", floor=4)
     ck.rule("C14.R7", "the JSON span list is the event's own scope, root to leaf (as C13.R7)", floor=5)
     ck.rule("C14.R3", "span list is root to leaf", floor=1)
@@ -51,6 +52,7 @@ def run(ck):
     C13.r10(ck, F, rid="C14.R8", only="JsonVisitor")
     from rules import C10
     C10.visit_defaults(ck, F, rid="C14.R9")
+    r10_siblings(ck, F)
 
 
 def r1(ck, F):
@@ -392,3 +394,28 @@ def r4b(ck, F):
             ck.ok("C14.R4", key3, fn=r.path)
         else:
             ck.bad("C14.R4", key3, where(r.raw["sp"]), "values recorded on a span that was created without fields are formatted and then dropped: no later record of the span shows them", fn=r.path)
+
+
+def r10_siblings(ck, F):
+    """One line carries a span's fields (collected by JsonVisitor at creation / record time) and the event's own fields
+    (serialised by tracing-serde's SerdeMapVisitor, or SerdeStructVisitor). A value kind that neither side handles goes
+    through Visit's provided method -- the same text on both sides. A kind that only the event side overrides (say
+    record_error, to append the source chain) makes the same error read differently as `fields.err` and `span.err`."""
+    vis = {}
+    for i in F.impls:
+        if i.get("trait") == "tracing_core::field::Visit":
+            for nm in ("JsonVisitor", "SerdeMapVisitor", "SerdeStructVisitor"):
+                if nm in i["self_ty"]:
+                    vis[nm] = set(i["methods"])
+    if not ck.anchor("C14.R10", "JsonVisitor / SerdeMapVisitor Visit impls", vis.get("JsonVisitor") and vis.get("SerdeMapVisitor")):
+        return
+    for nm in ("SerdeMapVisitor", "SerdeStructVisitor"):
+        if nm not in vis:
+            continue
+        extra = sorted(vis[nm] - vis["JsonVisitor"])
+        key = "%s overrides only value kinds JsonVisitor handles too" % nm
+        if extra:
+            ck.bad("C14.R10", key, "tracing-serde/src/lib.rs", "%s overrides %s, which the span-field visitor leaves to the provided default: the same value is rendered differently in "
+                   "the event's fields and in the `span` / `spans` entries of one line" % (nm, extra))
+        else:
+            ck.ok("C14.R10", key, detail=sorted(vis[nm]))
